@@ -30,9 +30,21 @@ type DiffCase struct {
 	Msg    string                `json:"message,omitempty"`
 }
 
+// prepared gives the evaluator a generous safety deadline (it starts at
+// Prepare and covers every run of the case): a timeout is then an engine that
+// hangs, not a busy machine. Checks that treat a timeout as inconclusive use
+// preparedShort.
 func prepared(script string, vars map[string]lang.Value, noOpt bool) (*eng.Runner, error) {
+	return preparedLimit(script, vars, noOpt, 30*time.Second)
+}
+
+func preparedShort(script string, vars map[string]lang.Value, noOpt bool) (*eng.Runner, error) {
+	return preparedLimit(script, vars, noOpt, 2*time.Second)
+}
+
+func preparedLimit(script string, vars map[string]lang.Value, noOpt bool, limit time.Duration) (*eng.Runner, error) {
 	r := eng.NewRunner(script)
-	ctx, cancel := context.WithTimeout(context.Background(), 2*time.Second)
+	ctx, cancel := context.WithTimeout(context.Background(), limit)
 	_ = cancel // the context lives as long as the evaluator
 	r.E.SetContext(ctx)
 	names := sortedKeys(vars)
@@ -66,8 +78,8 @@ func programDigest(r *eng.Runner) string {
 
 // runDiff executes the case; changed reports whether the optimizer altered the program.
 func runDiff(c *DiffCase) (changed bool, outcome string, err error) {
-	opt, e1 := prepared(c.Script, c.Vars, false)
-	raw, e2 := prepared(c.Script, c.Vars, true)
+	opt, e1 := preparedShort(c.Script, c.Vars, false)
+	raw, e2 := preparedShort(c.Script, c.Vars, true)
 	if (e1 == nil) != (e2 == nil) {
 		return false, "", fmt.Errorf("Prepare disagrees: optimized=%v unoptimized=%v", e1, e2)
 	}
